@@ -4,7 +4,7 @@ import os
 from .. import common, meta
 
 LEVEL = "proof"
-RULE = ("Lean: on the model of GetMethodT/getParentMethodT over Go-map models of TFrame and ClassInheritanceMap (any graph, cycles included): a resolved definition always carries the asked method "
+RULE = ("Lean (the models are tied to base.GetMethodT / base.GetClassMethodT by the `lookup` differential stream over generated method tables and inheritance graphs): on the model of GetMethodT/getParentMethodT over Go-map models of TFrame and ClassInheritanceMap (any graph, cycles included): a resolved definition always carries the asked method "
         "name and privacy flag and exists in the table; the class's own definition wins; a direct superclass's / included module's definition is found; nothing is resolved when no key of that name "
         "exists. End-to-end: generated hierarchies (superclass chains of depth 1-4, included and extended modules, class << self, initialize, private/protected/public sections) with calls whose "
         "outcome (resolves / is reported on its row) is computed by a reference model of Ruby's rules; plus same-named classes at several lexical levels with an unqualified superclass inside nested modules "
@@ -112,6 +112,39 @@ def gen_case(rng, k):
     return "\n".join(lines) + "\n", expect_bad, first_call_row, inherited
 
 
+def gen_lookup(rng):
+    """one GetMethodT / GetClassMethodT query over a generated method table and inheritance graph (same short names in several frames,
+    include/extend edges, cycles, Builtin fallbacks); the query is aimed at the graph"""
+    frames = ["-", "-", "Builtin", "Core", "Ext", "Builtin::Core"]
+    classes = ["Node", "Root", "Leaf", "Mod", "-"]
+    meths = ["m", "n"]
+    ms = set()
+    for _ in range(rng.randint(1, 6)):
+        ms.add("~".join([rng.choice(frames), rng.choice(classes), rng.choice(meths), rng.choice("001"), rng.choice("01")]))
+    ms = sorted(ms)
+    rng.shuffle(ms)
+    es = []
+    for _ in range(rng.randint(0, 6)):
+        inc, ext = rng.choice([(0, 0), (0, 0), (0, 0), (1, 0), (0, 1)])
+        es.append("~".join([rng.choice(frames), rng.choice(classes[:4]), rng.choice(frames), rng.choice(classes[:4]), str(inc), str(ext)]))
+    if es and rng.random() < 0.5:
+        es += ["Ext~Node~Core~Node~0~0", "Core~Node~Core~Root~0~0"]       # a chain through two classes of one short name
+    bc = ",".join(rng.sample(classes[:4], rng.randint(0, 2)))
+    if rng.random() < 0.8:
+        src = rng.choice(es) if es and rng.random() < 0.7 else rng.choice(ms)
+        f = src.split("~")
+        qf, qc = f[0], f[1]
+        if qc == "-":
+            qc = "Node"
+        if qf == "Builtin" and rng.random() < 0.5:
+            qf = "-"
+        mm = rng.choice(ms).split("~")
+        q = " ".join(["c" if mm[4] == "1" else "i", qf, qc, mm[2], mm[3] if rng.random() < 0.8 else rng.choice("01")])
+    else:
+        q = " ".join([rng.choice("ic"), rng.choice(frames), rng.choice(classes[:4]), rng.choice(meths), rng.choice("001")])
+    return "lookup %s | %s | %s | %s" % (q, ";".join(ms), ";".join(es), bc)
+
+
 def gen_ns_case(rng, k):
     """classes of one short name at several lexical levels; `class Sub < Core` must inherit from the innermost enclosing definition"""
     core = "Core%d" % k
@@ -199,12 +232,13 @@ def run(ctx):
     common.build_godrv(ctx)
     proof_ok = common.prove(ctx, extra_modules=["RubyTi.Props.C27"])
     dis = common.run_stream(ctx, "findns", [C27.gen_findns(ctx.rng) for _ in range(ctx.pick(3000, 30000))])
-    failures = run_e2e(ctx, ctx.pick(400, 4000), "a")
+    dis2 = common.run_stream(ctx, "lookup", [gen_lookup(ctx.rng) for _ in range(ctx.pick(12000, 120000))])
+    failures = run_e2e(ctx, ctx.pick(400, 4000), "a") + C27.run_samename(ctx, ctx.pick(20, 200), "c16")
 
     def search():
-        return run_e2e(ctx, 800, "s")
+        return run_e2e(ctx, 800, "s") + C27.run_samename(ctx, 60, "c16s")
 
-    common.conclude(ctx, proof_ok, {"findns": dis}, failures, search)
+    common.conclude(ctx, proof_ok, {"findns": dis, "lookup": dis2}, failures, search)
     evidence(ctx)
 
 
